@@ -11,7 +11,7 @@ import (
 // arbitrary candidate URL and document URL: the index arithmetic of
 // IsPagingURL / IsValidFor never panics, for path and query patterns.
 func HarnessC01Patterns() {
-	p := vx.NondetStringIn("path", vx.Param("path", 6), "a/-.12_")
+	p := vx.NondetStringIn("path", vx.Param("path", 6), "a/2-")
 	q := []string{"", "?p=2", "?a=1&page=12", "?page="}[vx.Choose("query", 4)]
 	u, err := nurl.Parse("http://h.t/" + p + q)
 	if err != nil {
@@ -20,8 +20,8 @@ func HarnessC01Patterns() {
 	var pats []PagePattern
 	pats = append(pats, PathComponentPagePatternsFromURL(u)...)
 	pats = append(pats, QueryParamPagePatternsFromURL(u)...)
-	cand := "http://h.t/" + vx.NondetStringIn("cand", vx.Param("cand", 5), "a/-.12_?=")
-	du, derr := nurl.Parse("http://h.t/" + vx.NondetStringIn("doc", vx.Param("doc", 3), "a/-.12"))
+	cand := "http://h.t/" + vx.NondetStringIn("cand", vx.Param("cand", 5), "a/2-?")
+	du, derr := nurl.Parse("http://h.t/" + vx.NondetStringIn("doc", vx.Param("doc", 3), "a/2"))
 	for _, pat := range pats {
 		vx.Cover("pattern")
 		_ = pat.String()
